@@ -8,20 +8,25 @@
 (*              "n" None, "T"/"F" bool, "i<k>" int k, "f<k>" float k.0,    *)
 (*              "x" a non-JSON leaf (forbidden), anything else "s<text>"   *)
 (*              is the str <text>                                          *)
-(*   dict       [t |-> "d", v |-> [key -> value]]   keys are TLA+ strings  *)
-(*   list       [t |-> "l", v |-> <<value, ...>>]                          *)
+(*   dict       [t |-> "d", m |-> [key -> value]]   keys are TLA+ strings  *)
+(*   list       [t |-> "l", s |-> <<value, ...>>]                          *)
+(* The two bodies live in differently named fields on purpose: TLC orders  *)
+(* record fields by an internal id, so with one shared field it ends up    *)
+(* comparing a tuple with a record and dies; for the same reason an empty  *)
+(* dict body is always the empty function EF, never the tuple << >>.       *)
 (* Keys that stand for forbidden keys are listed in NonStrKeys ("#1" is    *)
 (* the int key 1) and DottedKeys ("a.b").                                  *)
 (***************************************************************************)
 EXTENDS Integers, Sequences, FiniteSets, TLC
 
 S(a) == [t |-> a]
-D(f) == [t |-> "d", v |-> f]
-L(s) == [t |-> "l", v |-> s]
+D(f) == [t |-> "d", m |-> f]
+L(s) == [t |-> "l", s |-> s]
 Null == S("n")
 True == S("T")
 False == S("F")
-EmptyD == D(<<>>)
+EF == [k \in {} |-> 0]     \* the empty function (never write <<>> for an empty dict body)
+EmptyD == D(EF)
 EmptyL == L(<<>>)
 Absent == [t |-> "absent"]
 Err(e) == [t |-> "!", e |-> e]
@@ -58,9 +63,9 @@ AtomEq(a, b) == IF a \in NumAtoms /\ b \in NumAtoms THEN Num(a) = Num(b) ELSE a 
 RECURSIVE PyEq(_, _)
 PyEq(x, y) ==
   IF IsD(x) /\ IsD(y)
-    THEN DOMAIN x.v = DOMAIN y.v /\ \A k \in DOMAIN x.v : PyEq(x.v[k], y.v[k])
+    THEN DOMAIN x.m = DOMAIN y.m /\ \A k \in DOMAIN x.m : PyEq(x.m[k], y.m[k])
   ELSE IF IsL(x) /\ IsL(y)
-    THEN Len(x.v) = Len(y.v) /\ \A i \in 1..Len(x.v) : PyEq(x.v[i], y.v[i])
+    THEN Len(x.s) = Len(y.s) /\ \A i \in 1..Len(x.s) : PyEq(x.s[i], y.s[i])
   ELSE IF IsS(x) /\ IsS(y) THEN AtomEq(x.t, y.t)
   ELSE FALSE
 
@@ -78,12 +83,12 @@ PyCmp(x, y, op) ==
   ELSE IF IsS(x) /\ IsS(y) /\ IsStrAtom(x.t) /\ IsStrAtom(y.t)
     THEN IF IntCmp(StrRank(x.t), StrRank(y.t), op) THEN "T" ELSE "F"
   ELSE IF IsL(x) /\ IsL(y)
-    THEN LET n == IF Len(x.v) < Len(y.v) THEN Len(x.v) ELSE Len(y.v)
-             diff == {i \in 1..n : ~PyEq(x.v[i], y.v[i])}
+    THEN LET n == IF Len(x.s) < Len(y.s) THEN Len(x.s) ELSE Len(y.s)
+             diff == {i \in 1..n : ~PyEq(x.s[i], y.s[i])}
          IN IF diff = {}
-              THEN IF IntCmp(Len(x.v), Len(y.v), op) THEN "T" ELSE "F"
+              THEN IF IntCmp(Len(x.s), Len(y.s), op) THEN "T" ELSE "F"
               ELSE LET i == CHOOSE j \in diff : \A m \in diff : j <= m
-                   IN PyCmp(x.v[i], y.v[i], op)
+                   IN PyCmp(x.s[i], y.s[i], op)
   ELSE "E"
 
 (***************************************************************************)
@@ -93,9 +98,9 @@ PyCmp(x, y, op) ==
 KStep(k) == [k |-> k, i |-> -1]
 IStep(i) == [k |-> "", i |-> i]
 
-HasStep(v, s) == IF s.i = -1 THEN IsD(v) /\ s.k \in DOMAIN v.v
-                 ELSE IsL(v) /\ s.i < Len(v.v)
-Child(v, s) == IF s.i = -1 THEN v.v[s.k] ELSE v.v[s.i + 1]
+HasStep(v, s) == IF s.i = -1 THEN IsD(v) /\ s.k \in DOMAIN v.m
+                 ELSE IsL(v) /\ s.i < Len(v.s)
+Child(v, s) == IF s.i = -1 THEN v.m[s.k] ELSE v.s[s.i + 1]
 
 RECURSIVE Get(_, _)
 Get(v, p) == IF p = <<>> THEN v
@@ -106,8 +111,8 @@ RECURSIVE Put(_, _, _)
 Put(v, p, new) ==
   IF p = <<>> THEN new
   ELSE LET s == Head(p) IN
-       IF s.i = -1 THEN [v EXCEPT !.v[s.k] = Put(@, Tail(p), new)]
-       ELSE [v EXCEPT !.v[s.i + 1] = Put(@, Tail(p), new)]
+       IF s.i = -1 THEN [v EXCEPT !.m[s.k] = Put(@, Tail(p), new)]
+       ELSE [v EXCEPT !.s[s.i + 1] = Put(@, Tail(p), new)]
 
 IsPrefix(p, q) == Len(p) <= Len(q) /\ SubSeq(q, 1, Len(p)) = p
 IsStrictPrefix(p, q) == Len(p) < Len(q) /\ SubSeq(q, 1, Len(p)) = p
@@ -115,8 +120,8 @@ IsStrictPrefix(p, q) == Len(p) < Len(q) /\ SubSeq(q, 1, Len(p)) = p
 \* all container positions of a value (paths)
 RECURSIVE ContainerPaths(_)
 ContainerPaths(v) ==
-  IF IsD(v) THEN {<<>>} \cup UNION {{<<KStep(k)>> \o q : q \in ContainerPaths(v.v[k])} : k \in DOMAIN v.v}
-  ELSE IF IsL(v) THEN {<<>>} \cup UNION {{<<IStep(i - 1)>> \o q : q \in ContainerPaths(v.v[i])} : i \in 1..Len(v.v)}
+  IF IsD(v) THEN {<<>>} \cup UNION {{<<KStep(k)>> \o q : q \in ContainerPaths(v.m[k])} : k \in DOMAIN v.m}
+  ELSE IF IsL(v) THEN {<<>>} \cup UNION {{<<IStep(i - 1)>> \o q : q \in ContainerPaths(v.s[i])} : i \in 1..Len(v.s)}
   ELSE {}
 
 (***************************************************************************)
@@ -126,10 +131,10 @@ ContainerPaths(v) ==
 RECURSIVE Forbidden(_, _)
 Forbidden(v, fam) ==
   IF IsD(v)
-    THEN \/ \E k \in DOMAIN v.v : k \in NonStrKeys
-         \/ fam = "attr" /\ \E k \in DOMAIN v.v : k \in DottedKeys
-         \/ \E k \in DOMAIN v.v : Forbidden(v.v[k], fam)
-  ELSE IF IsL(v) THEN \E i \in 1..Len(v.v) : Forbidden(v.v[i], fam)
+    THEN \/ \E k \in DOMAIN v.m : k \in NonStrKeys
+         \/ fam = "attr" /\ \E k \in DOMAIN v.m : k \in DottedKeys
+         \/ \E k \in DOMAIN v.m : Forbidden(v.m[k], fam)
+  ELSE IF IsL(v) THEN \E i \in 1..Len(v.s) : Forbidden(v.s[i], fam)
   ELSE v.t = "x"
 ForbiddenKey(k, fam) == k \in NonStrKeys \/ (fam = "attr" /\ k \in DottedKeys)
 
@@ -149,7 +154,7 @@ RECURSIVE Depth(_)
 Max2(a, b) == IF a > b THEN a ELSE b
 RECURSIVE SetMax(_)
 SetMax(s) == IF s = {} THEN 0 ELSE LET x == CHOOSE y \in s : TRUE IN Max2(x, SetMax(s \ {x}))
-Depth(v) == IF IsD(v) THEN 1 + SetMax({Depth(v.v[k]) : k \in DOMAIN v.v})
-            ELSE IF IsL(v) THEN 1 + SetMax({Depth(v.v[i]) : i \in 1..Len(v.v)})
+Depth(v) == IF IsD(v) THEN 1 + SetMax({Depth(v.m[k]) : k \in DOMAIN v.m})
+            ELSE IF IsL(v) THEN 1 + SetMax({Depth(v.s[i]) : i \in 1..Len(v.s)})
             ELSE 0
 =============================================================================
